@@ -478,8 +478,10 @@ def swap_case(ctx, idx, k):
     what = f"swap_gate({call}) [{sym} fermionic={ferm} {state} fuse={fuse}{modes}]"
     reach().start_case()
     r = yb.swap_gate(axes=axes, **kwargs)
-    key = "swap_gate:" + ("charge" if kwargs else "axes") + ("" if fuse == "none" else ":fused-" + ("two-level" if fuse == "two-level" else fuse)) \
-          + (":lazy" if state == "lazy" else "") + (":bosonic" if not fermionic else "")
+    if fermionic:
+        key = "swap_gate:" + ("charge" if kwargs else "axes") + ("" if fuse == "none" else ":fused-" + fuse) + (":lazy" if state == "lazy" else "")
+    else:
+        key = "swap_gate:bosonic-not-identity"
     ru = unfuse_all(r) if fuse != "none" else r
     ok = compare_exact(ctx, key, what, ru, expected, base.legs, base.n, witness)
     # the fused result itself keeps the legs of the fused operand
